@@ -231,7 +231,7 @@ def _crafted_traces():
     return out
 
 
-def repo_test_traces(tier):
+def repo_test_traces(tier, seed=0):
     """Executions of the repository's OWN solver test (tests/test_solver, hypothesis-generated powertrains of 7..40 elements, a first
     run with a stop condition and a continuation with a multiplied time step), recorded by a pytest plugin that lives in /verif
     (harness/repo_trace_plugin.py) and validated like every other trace."""
@@ -240,15 +240,19 @@ def repo_test_traces(tier):
     n = 4 if tier == 'quick' else 40
     fd, out = tempfile.mkstemp(prefix='verif-repotrace-', suffix='.ndjson')
     os.close(fd)
-    env = dict(os.environ, VERIF_REPO_TRACE_OUT=out, VERIF_REPO_TRACE_MAX=str(n), VERIF_REPO_TRACE_MAX_INSTANTS='70' if tier == 'quick' else '150',
-               PYTHONPATH=VERIF + os.pathsep + os.environ.get('PYTHONPATH', ''), PYTHONHASHSEED='0')
+    env = dict(os.environ, VERIF_REPO_TRACE_OUT=out, VERIF_REPO_TRACE_MAX=str(3 * n), VERIF_REPO_TRACE_KEEP=str(n), VERIF_REPO_TRACE_MAX_INSTANTS='70' if tier == 'quick' else '150',
+               PYTHONPATH=VERIF + os.pathsep + os.environ.get('PYTHONPATH', ''), PYTHONHASHSEED='0',
+               HYPOTHESIS_STORAGE_DIRECTORY=tempfile.mkdtemp(prefix='verif-hyp-'))       # nothing is written into the repository
     try:
-        p = subprocess.run([sys.executable, '-m', 'pytest', '-q', '-p', 'no:cacheprovider', '-p', 'harness.repo_trace_plugin', '-x',
+        # the hypothesis seed is fixed by the check's seed: the recorded executions are a deterministic function of (sources, seed)
+        p = subprocess.run([sys.executable, '-m', 'pytest', '-q', '-p', 'no:cacheprovider', '-p', 'harness.repo_trace_plugin', '-x', f'--hypothesis-seed={seed % 2**31}',
                             'tests/test_solver/test_solver.py::TestSolverRun::test_method', '-W', 'ignore'],
                            cwd=REPO, env=env, capture_output=True, text=True, timeout=1800)
         traces = [json.loads(l) for l in open(out)] if os.path.getsize(out) else []
     finally:
         os.unlink(out)
+        import shutil
+        shutil.rmtree(env['HYPOTHESIS_STORAGE_DIRECTORY'], ignore_errors=True)
     # (if the repository's test cannot run on this tree nothing is recorded; the other families do not depend on it)
     return traces
 
@@ -257,7 +261,7 @@ def gen_traces(tier, seed):
     from concurrent.futures import ProcessPoolExecutor
     n = 260 if tier == 'quick' else 4000
     with ProcessPoolExecutor(max_workers=min(16, os.cpu_count() or 4)) as ex:
-        return list(ex.map(_one_trace, [(seed, i) for i in range(n)], chunksize=4)) + _crafted_traces() + _exact_traces() + repo_test_traces(tier)
+        return list(ex.map(_one_trace, [(seed, i) for i in range(n)], chunksize=4)) + _crafted_traces() + _exact_traces() + repo_test_traces(tier, seed)
 
 
 def campaign(tier, seed):
